@@ -59,13 +59,16 @@ MergedRep(old, n) ==
     etag |-> m.etag, vary |-> m.vary, vs |-> m.vs, reqT |-> m.reqT, respT |-> m.respT, hop |-> 0,
     locu |-> -1, locso |-> 0, clocu |-> -1, clocso |-> 0, upd |-> n.upd ]
 
-Qualified(r) == r.ccp = 1 /\ Has(r, "no-cache") /\ r.ncf = 1
+\* ncf: 0 = no-cache without argument, 1 = no-cache="X-Secret", 2 = no-cache="ETag, X-Secret" (a validator is among the named fields)
+Qualified(r) == r.ccp = 1 /\ Has(r, "no-cache") /\ r.ncf >= 1
+NamesEtag(r) == Qualified(r) /\ r.ncf = 2
 HOf(r) == [ ccp |-> r.ccp, ma |-> r.ma, fl |-> r.fl, swr |-> r.swr, sie |-> r.sie, ncf |-> r.ncf,
             date |-> r.date, exp |-> r.exp, lm |-> r.lm, etag |-> r.etag, vary |-> r.vary, vs |-> r.vs,
             unk |-> 0, secret |-> 1 ]
 \* header meaning of a response served from the store without validation on the
 \* stale paths: fields named by a qualified no-cache are stripped there too
-StoreH(r) == [HOf(r) EXCEPT !.secret = IF Qualified(r) /\ "keep_qualified_fields_on_stale_paths" \notin Defects THEN 0 ELSE 1]
+StoreH(r) == [HOf(r) EXCEPT !.secret = IF Qualified(r) /\ "keep_qualified_fields_on_stale_paths" \notin Defects THEN 0 ELSE 1,
+                             !.etag = IF NamesEtag(r) /\ "keep_qualified_fields_on_stale_paths" \notin Defects THEN 0 ELSE r.etag]
 NoH == [ ccp |-> 0, ma |-> None, fl |-> <<>>, swr |-> None, sie |-> None, ncf |-> 0,
          date |-> None, exp |-> None, lm |-> None, etag |-> 0, vary |-> <<>>, vs |-> 0, unk |-> 0, secret |-> 0 ]
 
@@ -89,9 +92,12 @@ CodeLife(r) ==
 CodeAge(r, t) == CurrentAge(r, t)
 
 \* CalculateFreshness
+\* (a request max-age=0 is answered before anything else is looked at: stale, whatever max-stale says; the pinned
+\* tree also reported the age as 0 from here)
 CodeFresh(r, rq, t) ==
-  IF "reqmaxage0_shortcut" \in Defects /\ rq.ma = 0
-    THEN [stale |-> TRUE, age |-> 0, life |-> 0, zero |-> TRUE]
+  IF rq.ma = 0
+    THEN (IF "reqmaxage0_shortcut" \in Defects THEN [stale |-> TRUE, age |-> 0, life |-> 0, zero |-> TRUE]
+          ELSE [stale |-> TRUE, age |-> CodeAge(r, t), life |-> 0, zero |-> FALSE])
   ELSE
   LET age  == CodeAge(r, t)
       l0   == CodeLife(r)
@@ -296,10 +302,10 @@ Finish(e) ==
 Serve ==
   /\ ex.pc = "serve"
   /\ LET r == ex.stored.rep
-         qual == r.ccp = 1 /\ Has(r, "no-cache") /\ r.ncf = 1
+         qual == Qualified(r)
          age == IF ex.fr.zero THEN 0 ELSE CodeAge(r, now)
      IN Finish(RetEv("HIT", r.st, ex.stored.tok, ex.stored.tag, age, 1,
-                     [HOf(r) EXCEPT !.secret = IF qual THEN 0 ELSE 1], 0))
+                     [HOf(r) EXCEPT !.secret = IF qual THEN 0 ELSE 1, !.etag = IF NamesEtag(r) THEN 0 ELSE r.etag], 0))
   /\ UNCHANGED <<now, idx, ent, ctr>>
 
 \* only-if-cached and nothing usable
@@ -537,7 +543,9 @@ BgOriginT(a0, swrms) ==
          s == ex.stored
          e == [ ev |-> "call", x |-> ex.x, c |-> ex.ncalls + 1, bg |-> 1, kind |-> IF a.k = "hang" THEN "cancelled" ELSE a.k,
                 tag |-> tag, tok |-> tok, t0 |-> now, t1 |-> now + dur,
-                inm |-> IF s.rep.etag > 0 THEN s.rep.etag ELSE ex.rq.inm,
+                \* (a tree that strips the fields named by a qualified no-cache before it builds the background request
+                \* loses the validator)
+                inm |-> IF s.rep.etag > 0 /\ ~("swr_strips_validators" \in Defects /\ NamesEtag(s.rep)) THEN s.rep.etag ELSE ex.rq.inm,
                 ims |-> IF s.rep.lm >= 0 THEN s.rep.lm ELSE IF ex.rq.ims > 0 THEN Invalid ELSE 0,
                 m |-> ex.rq.m, rng |-> ex.rq.range, oic |-> 0, rep |-> rep, ctxdone |-> IF a.k = "hang" THEN 1 ELSE 0,
                 hsame |-> 1, url |-> "" ]
